@@ -274,6 +274,14 @@ func VerifCore_CommitDecide() {
 		}
 		if sym.Bool("decide-vote") {
 			if m := e.message(idx, 0, DECIDE_PHASE, input, 4, 0); m != nil {
+				if idx == verifByzIdx && sym.Bool("byzantine-decide-signed-over-other-commitments") {
+					// a correctly signed DECIDE whose supplemental data differs from the
+					// instance's in the commitments only (its justification is genuine)
+					m.Vote.SupplementalData.Commitments[0] ^= 1
+					m.Signature = VerifSign(e.c.PowerTable.Entries[idx].PubKey, m.Vote.MarshalForSigning(VerifNN))
+					sym.Assert(!e.deliver(m), "a vote over other supplemental data is not accepted")
+					continue
+				}
 				e.deliver(m)
 			}
 		}
